@@ -120,7 +120,16 @@ func marshalShuffled(v any, r *rand.Rand) []byte {
 	return buf.Bytes()
 }
 
+// phaseSnap is what the verif sink of Flatten delivers at the end of one phase.
+type phaseSnap struct {
+	Name    string
+	Doc     []byte // marshalled document (nil when marshalling panicked)
+	InSync  bool   // the analyzer passed in answers like a fresh analysis of the document
+	NewRefs any
+}
+
 type flatRun struct {
+	phases []phaseSnap
 	err   error
 	panic string
 	stack string
@@ -132,6 +141,38 @@ type flatRun struct {
 
 // flattenOnce loads root.json from dir and flattens it. failAt > 0 makes the failAt-th document load fail.
 func flattenOnce(dir string, o flatOpts, failAt int) (res flatRun) {
+	return flattenOnceObs(dir, o, failAt, false)
+}
+
+// newRefsJSON renders the flatten context's bookkeeping of created references.
+func newRefsJSON(ph analysis.VerifPhase) any {
+	out := M{}
+	for k, r := range ph.NewRefs {
+		var sch any
+		if r.Schema != nil {
+			func() {
+				defer func() { _ = recover() }()
+				b, err := json.Marshal(r.Schema)
+				if err == nil {
+					_ = json.Unmarshal(b, &sch)
+				}
+			}()
+		}
+		ps := []any{}
+		for _, p := range r.Parents {
+			ps = append(ps, p)
+		}
+		out[k] = M{"key": r.Key, "newName": r.NewName, "path": r.Path, "isOAIGen": r.IsOAIGen, "resolved": r.Resolved, "schema": sch, "parents": ps}
+	}
+	res := M{}
+	for k, v := range ph.Resolved {
+		res[k] = v
+	}
+	return M{"newRefs": out, "resolved": res}
+}
+
+// flattenOnceObs: as flattenOnce; with observe, the end of every phase is recorded through the verif sink.
+func flattenOnceObs(dir string, o flatOpts, failAt int, observe bool) (res flatRun) {
 	rootPath := filepath.Join(dir, "root.json")
 	raw, err := os.ReadFile(rootPath)
 	if err != nil {
@@ -162,6 +203,21 @@ func flattenOnce(dir string, o flatOpts, failAt int) (res flatRun) {
 	}()
 	res.sw = &sw
 	res.an = analysis.New(&sw)
+	if observe {
+		analysis.VerifSetSink(func(ph analysis.VerifPhase) {
+			snap := phaseSnap{Name: ph.Name, NewRefs: newRefsJSON(ph)}
+			func() {
+				defer func() { _ = recover() }()
+				cur := ph.Opts.Swagger()
+				if b, err := json.Marshal(cur); err == nil {
+					snap.Doc = b
+				}
+				snap.InSync = queryDigest(ph.Opts.Spec, cur) == queryDigest(analysis.New(cur), cur)
+			}()
+			res.phases = append(res.phases, snap)
+		})
+		defer analysis.VerifSetSink(nil)
+	}
 	res.err = analysis.Flatten(analysis.FlattenOpts{Spec: res.an, BasePath: rootPath, Minimal: o.Minimal, Expand: o.Expand, RemoveUnused: o.RemoveUnused, KeepNames: o.KeepNames})
 	if res.err == nil {
 		b, err := json.Marshal(&sw)
@@ -210,8 +266,21 @@ func flattenChild(in any) any {
 	if err != nil {
 		return M{"err": "write bundle: " + err.Error()}
 	}
-	r1 := flattenOnce(dir, o, 0)
+	r1 := flattenOnceObs(dir, o, 0, true)
 	res := M{"loads": r1.loads}
+	{
+		var phs []any
+		for _, ph := range r1.phases {
+			var doc any
+			if ph.Doc != nil {
+				dec := json.NewDecoder(bytes.NewReader(scrubDir(ph.Doc, dir)))
+				dec.UseNumber()
+				_ = dec.Decode(&doc)
+			}
+			phs = append(phs, M{"name": ph.Name, "doc": doc, "inSync": ph.InSync, "ctx": ph.NewRefs})
+		}
+		res["phases"] = phs
+	}
 	if r1.panic != "" {
 		res["panic"] = r1.panic
 		res["panicStack"] = r1.stack
